@@ -1482,14 +1482,14 @@ func main() {
 		a.flush()
 	}
 	// ---- 1: random single values and mixed sequences
-	chunks(r, rng, 3, vf.N(300000, 2000000), 5000, func(a *acc, rng *vf.RNG, i int) {
+	chunks(r, rng, 3, vf.N(300000, 1200000), 5000, func(a *acc, rng *vf.RNG, i int) {
 		v := genValue(rng, kind(i%int(nKinds)), rng.Chance(1))
 		roundTripOne(a, v, "random")
 		if i < 4 {
 			r.Sample(map[string]interface{}{"part": "roundtrip", "value": v.String(), "encoding": hx(refEncode(v))})
 		}
 	})
-	chunks(r, rng, 4, vf.N(40000, 400000), 1000, seqRoundTrip)
+	chunks(r, rng, 4, vf.N(40000, 250000), 1000, seqRoundTrip)
 
 	// ---- 2: canonicity
 	chunks(r, rng, 5, 0x10100, 2048, func(a *acc, rng *vf.RNG, i int) { canonicity(a, rng, uint64(i), "exhaustive") })
@@ -1504,10 +1504,10 @@ func main() {
 		canonicity(a, sub, math.MaxUint64, "edge")
 		a.flush()
 	}
-	chunks(r, rng, 7, vf.N(100000, 1000000), 5000, func(a *acc, rng *vf.RNG, i int) { canonicity(a, rng, genU64(rng, 64), "random") })
+	chunks(r, rng, 7, vf.N(100000, 600000), 5000, func(a *acc, rng *vf.RNG, i int) { canonicity(a, rng, genU64(rng, 64), "random") })
 
 	// ---- 3: hostile op sequences on the source
-	chunks(r, rng, 8, vf.N(100000, 2000000), 2000, hostileSource)
+	chunks(r, rng, 8, vf.N(100000, 1200000), 2000, hostileSource)
 	// ---- 4b: hostile op sequences on the io.Reader codec
 	if allocTripped {
 		// a decoder already over-allocates on a declared length: feeding it 2^40..2^64 lengths from
@@ -1515,7 +1515,7 @@ func main() {
 		// evidence is written.  The violation is already recorded; this phase is skipped.
 		r.Inconclusive("hostile io.Reader phase skipped after an allocation-bound violation")
 	} else {
-		chunks(r, rng, 9, vf.N(60000, 800000), 2000, hostileReader)
+		chunks(r, rng, 9, vf.N(60000, 500000), 2000, hostileReader)
 	}
 
 	// ---- coverage that must have been reached
